@@ -323,6 +323,11 @@ Fixpoint texts_eqb (a b : list text) : bool :=
   | _, _ => false
   end.
 
+(* the "prevent whitespace-only changes" guard: the rewrite is skipped iff the replacement and the
+   code it replaces have the same non-blank lines after rstrip() -- LEADING whitespace (block structure)
+   is compared *)
+Definition ws_only_change (n code : text) : bool := texts_eqb (sig_lines n) (sig_lines code).
+
 Definition extra_indented (extra : nat) (n : text) : text :=
   match lines_ke n with
   | [] => []       (* not reached: only used when n is non-empty *)
@@ -341,7 +346,7 @@ Definition do_rewrite (src : text) (rw : range * text) : text :=
   let code := slice src r in
   if text_eqb n code then src
   else if ignored (ignore_lines src) r then src
-  else if texts_eqb (sig_lines n) (sig_lines code) then src
+  else if ws_only_change n code then src
   else
     let cand := splice_t src r n in
     let nonempty := match n with [] => false | _ => true end in
@@ -355,6 +360,11 @@ Definition do_rewrite (src : text) (rw : range * text) : text :=
        nor the replacement has a whitespace-only line; the harness checks that on every case *)
 
 Definition do_all (src : text) (rws : list (range * text)) : text := fold_left do_rewrite rws src.
+
+(* the texts _do_rewrite may splice in for a replacement n *)
+Definition candidates (n : text) : list text :=
+  n :: match n with [] => [str_pass] | _ => [] end
+    ++ map (fun x => extra_indented x n) [0; 4; 8; 12]%nat.
 
 End DoRewrite.
 
